@@ -40,8 +40,16 @@ def showWord (s : St) (v : Nat) : String :=
         let off : Int := (v : Int) - ((b.base + b.hdr : Nat) : Int)
         if off < 0 then s!"p{t}{off}" else s!"p{t}+{off}"
 
+/-- run-length form: runs of 4 or more equal tokens are written `tok*count` -/
+def rle (ts : List String) : List String :=
+  let runs : List (String × Nat) := ts.foldr (fun t acc =>
+    match acc with
+    | (u, n) :: rest => if t = u then (u, n + 1) :: rest else (t, 1) :: acc
+    | [] => [(t, 1)]) []
+  runs.flatMap (fun p => if p.2 ≥ 4 then [s!"{p.1}*{p.2}"] else List.replicate p.2 p.1)
+
 def showBlock (s : St) (id : Nat) (b : Block) : String :=
-  s!"{id}:" ++ ",".intercalate (b.words.map (showWord s))
+  s!"{id}:" ++ ",".intercalate (rle (b.words.map (showWord s)))
 
 def enum {α : Type} (l : List α) : List (Nat × α) := (List.range l.length).zip l
 
